@@ -353,7 +353,7 @@ def cleanup_dir():
 # ---------------------------------------------------------------------------
 # helpers shared by the E3 checks
 def prepare(workload, skip, *, events=False, setup_actions=(), max_steps=400, post_actions=(), budget=None,
-            signal_spec=None):
+            signal_spec=None, newest_first=False):
     """Drive the workload sequentially (FIFO) on the in-memory world, never delivering a
     message whose label matches one of the `skip` prefixes; returns the image in which only
     such messages remain, plus what is needed to rebuild the world."""
@@ -380,7 +380,7 @@ def prepare(workload, skip, *, events=False, setup_actions=(), max_steps=400, po
             acts = [a for a in ex.enabled(st) if a[0].startswith("d:") and not any(a[0][2:].startswith(s) for s in skip)]
             if not acts:
                 break
-            a = min(acts, key=lambda a: a[1])
+            a = (max if newest_first else min)(acts, key=lambda a: a[1])
             tr, b = ex.apply(st, a)
             st, _ = ex.fold(st, tr, b)
             st.blob = pack(w.image())
@@ -398,7 +398,7 @@ def prepare(workload, skip, *, events=False, setup_actions=(), max_steps=400, po
     w.drain_audit()
     img = w.image()
     return {"image": img, "behaviours": dict(w.behaviours), "task_names": set(w.task_names), "view": st.view,
-            "exec_counts": dict(w.exec_counts), "pending": [m["type"] for m in st.view.queue]}
+            "exec_counts": dict(w.exec_counts), "pending": [m["type"] for m in st.view.queue], "steps": steps}
 
 
 class DrainMemo:
@@ -454,12 +454,14 @@ class DrainMemo:
 
 def run_engine_scenario(workload, skip, scripts, oracle, bound, *, shard=None, setup_actions=(), time_cap=1500,
                         max_executions=60000, events=False, prep_hook=None, extra_scripts=None, fault=None,
-                        post_actions=(), budget=None):
+                        post_actions=(), budget=None, prepared=None):
     """Generic E3 job: prepare sequentially, race `scripts` (process_one counts per worker),
     drain, evaluate oracle(ctx) -> list of violations.  ctx carries everything observed."""
     from .world import dumps
 
-    if post_actions or budget:
+    if prepared is not None:
+        prep = prepared
+    elif post_actions or budget:
         prep = prepare(workload, skip, events=events, setup_actions=setup_actions, post_actions=post_actions, budget=budget)
     else:
         prep = prepare(workload, skip, events=events, setup_actions=setup_actions)
@@ -596,6 +598,10 @@ def run_engine_scenario(workload, skip, scripts, oracle, bound, *, shard=None, s
 
 def aggregate_e3(results, assumptions=None, extra=None):
     good = [r for r in results if "harness_error" not in r]
+    # all-pairs jobs are enumerated per step of the baseline run; steps with fewer than two ready messages are empty
+    empty_pair_steps = sum(1 for r in good if r.get("pairs") == 0 and not r.get("executions"))
+    pairs_raced = sum(r.get("pairs", 0) for r in good)
+    good = [r for r in good if not (r.get("pairs") == 0 and not r.get("executions"))]
     execs = sum(r.get("executions", 0) for r in good)
     pts = sum(r.get("points", 0) for r in good)
     cov = {
@@ -609,9 +615,12 @@ def aggregate_e3(results, assumptions=None, extra=None):
                 "count scheduling points executed on the real code",
         "per_job": [{k: r.get(k) for k in ("job", "executions", "points", "max_points", "bound", "capped", "distinct_outcomes",
                                            "lock_waits", "lock_deadlocks", "wall_s", "stats", "pending_at_start",
-                                           "outcome_classes")} for r in good],
+                                           "outcome_classes", "pairs")} for r in good],
         "headline": {"jobs": len(good), "executions": execs, "capped": sum(1 for r in good if r.get("capped"))},
     }
+    if pairs_raced or empty_pair_steps:
+        cov["message_pairs_raced"] = pairs_raced
+        cov["baseline_steps_without_two_ready_messages"] = empty_pair_steps
     if extra:
         cov.update(extra)
     return {
